@@ -30,6 +30,7 @@ var (
 	fFeat     = flag.String("sim.features", "", "feature overrides")
 	fBudget   = flag.Duration("sim.budget", 0, "stop starting new runs after this much wall time")
 	fTraceFile = flag.String("sim.tracefile", "", "write the schedule trace line by line to this file (survives a crash)")
+	fFree      = flag.Bool("sim.free", false, "free-running mode: goroutine yields do not park (for the race detector; not replayable)")
 	fWatchdog = flag.Duration("sim.watchdog", 120*time.Second, "wall-clock limit for a single run")
 )
 
@@ -39,6 +40,7 @@ type replayFile struct {
 	Tier     string   `json:"tier"`
 	Finding  string   `json:"finding,omitempty"`
 	Features string   `json:"features,omitempty"`
+	Free     bool     `json:"free_running,omitempty"`
 	Tape     []uint32 `json:"tape"`
 }
 
@@ -66,6 +68,7 @@ func runOne(t *testing.T, cfg scen.Config, tp *tape.Tape, seed uint64) (res scen
 		}()
 		synctest.Test(t, func(t *testing.T) {
 			s = sched.New(tp)
+			s.Free = *fFree
 			if *fTraceFile != "" {
 				if f, err := os.OpenFile(*fTraceFile, os.O_CREATE|os.O_TRUNC|os.O_WRONLY, 0o644); err == nil {
 					s.TraceFile = f
@@ -141,6 +144,9 @@ func TestSim(t *testing.T) {
 		if rf.Features != "" {
 			cfg.Features = rf.Features
 		}
+		if rf.Free {
+			*fFree = true
+		}
 		emit(map[string]any{"begin": rf.Seed})
 		res := runOne(t, cfg, tape.Replay(rf.Seed, rf.Tape), rf.Seed)
 		emit(res)
@@ -154,13 +160,27 @@ func TestSim(t *testing.T) {
 		}
 		seed := *fFrom + uint64(i)
 		emit(map[string]any{"begin": seed})
+		if *fFree {
+			// lets the parent attribute race reports (which do not stop the process) to a run
+			fmt.Fprintf(os.Stderr, "SIMRUN %d\n", seed)
+		}
 		// wall-clock watchdog per run: a run that does not end is infrastructure trouble (exit 3 ->
 		// the parent reports exit 2), never a violation by itself
 		wd := time.AfterFunc(*fWatchdog, func() {
 			fmt.Fprintf(os.Stderr, "WATCHDOG: run of seed %d exceeded %s of wall time\n", seed, *fWatchdog)
 			os.Exit(3)
 		})
-		res := runOne(t, cfg, tape.New(seed), seed)
+		var res scen.Result
+		if *fFree {
+			// under the race detector the testing package fails (and leaves) the test function in
+			// which a race was reported: give every run its own sub-test so that the loop goes on
+			t.Run(fmt.Sprint(seed), func(st *testing.T) { res = runOne(st, cfg, tape.New(seed), seed) })
+			if res.Verdict == "" {
+				res.Prop, res.Seed, res.Verdict = cfg.Prop, seed, "ok"
+			}
+		} else {
+			res = runOne(t, cfg, tape.New(seed), seed)
+		}
 		wd.Stop()
 		if res.Verdict == "ok" {
 			if !res.Nontrivial || kept >= *fSamples {
